@@ -113,11 +113,17 @@ pub struct CmpOpts<'a> {
     pub rer_den: Option<(f64, f64)>,
     /// sub-check label used in failures
     pub sub: &'a str,
+    /// additional absolute slack for energies [kWh] (per-m2 entries: divided by the area)
+    pub slack_energy: f64,
+    /// additional absolute slack for weighted energies
+    pub slack_weighted: f64,
+    /// do not compare per-step ratios (f_match)
+    pub skip_ratio_vecs: bool,
 }
 
 impl<'a> Default for CmpOpts<'a> {
     fn default() -> Self {
-        CmpOpts { ignore: &[], ignore_prefix: &[], tol_mult: 1.0, names: ("left", "right"), rer_den: None, sub: "compare" }
+        CmpOpts { ignore: &[], ignore_prefix: &[], tol_mult: 1.0, names: ("left", "right"), rer_den: None, sub: "compare", slack_energy: 0.0, slack_weighted: 0.0, skip_ratio_vecs: false }
     }
 }
 
@@ -180,7 +186,15 @@ pub fn compare_flats(a: &Flat, b: &Flat, sc: &Scales, o: &CmpOpts) -> Result<u32
                 }
             }
         }
-        let t = sc.tol_entry(&ea) * o.tol_mult;
+        if o.skip_ratio_vecs && ea.kind == EK::RatioVec {
+            continue;
+        }
+        let slack = match ea.kind {
+            EK::Energy | EK::StepVec | EK::Need => o.slack_energy,
+            EK::Weighted => o.slack_weighted,
+            _ => 0.0,
+        } / if ea.m2 { sc.area.max(1e-12) } else { 1.0 };
+        let t = sc.tol_entry(&ea) * o.tol_mult + slack;
         for i in 0..ea.vals.len() {
             let (x, y) = (ea.vals[i], eb.vals[i]);
             if !((x - y).abs() <= t) {
